@@ -87,7 +87,14 @@ type evalError struct{ why string }
 func fail(why string) { panic(evalError{why}) }
 
 // FmtNum is the canonical number rendering shared with the worker.
-func FmtNum(f float64) string { return strconv.FormatFloat(f, 'g', -1, 64) }
+func FmtNum(f float64) string {
+	// (integral values positionally, whichever Go kind carried them: an int
+	// of a million and a float64 of a million are the same number)
+	if f == math.Trunc(f) && math.Abs(f) < 1e15 {
+		return strconv.FormatFloat(f, 'f', -1, 64)
+	}
+	return strconv.FormatFloat(f, 'g', -1, 64)
+}
 
 // printableNum reports whether a number lies in the region where the printed
 // forms agree: zero, or 1e-4 <= |v| < 1e15 with at most 14 significant digits
